@@ -11,6 +11,10 @@ def hook_commits():
         return []
 
 CHECKS = {
+ "C11": dict(cat="exploration",
+   text="Hostile inputs (fixed aliasing / extreme-operand corpus, grammar-derived over all operand types, token mutations, arbitrary Unicode) through seven entry points of the real parser / evaluator / data model, each in its own 2 MiB thread inside restartable child processes; monitors: panic hook + catch_unwind, the Verif_Hooks lock observer (relock by owner = self-deadlock, deterministic), post-state probe of the store, progress watchdog with address-space limit (non-termination, runaway allocation), and sub-process depth probes for stack exhaustion.",
+   note="Trusted: lockmon.rs relock detection, the batch runner's attribution of a child death to the case in progress. Stack exhaustion on deep nesting / long chains is a recorded known finding.",
+   tech="runtime monitors: panic / self-deadlock (instrumented mutex) / post-state / process-death attribution over generated hostile inputs", ref="DESIGN.md §5 C11"),
  "C05": dict(cat="exploration",
    text="Round trip through the real writer and reader on in-memory streams: boundary-complete enumeration of unsigned integers and string lengths (all width / length classes, multi-byte characters across the boundaries), every Data variant, mixed sequences; generated and hand-written models compared by canonical dump after write+read, also with ids moved to every width boundary; and (document, path) pairs executed on the original and on the reloaded model with equal traces.",
    note="Trusted: canon.rs (canonical dump; fields the format does not persist by design are excluded: version, file, tracer, timer, isFirstEntry, parent_state_name of <send>/<invoke> with explicit id). Generated send/invoke ids contain a process-global counter and are not compared.",
